@@ -1,18 +1,42 @@
 """Replay of MC_SysAlgOps states on real wannierberri objects (helper of props/sysalg.py; C05, C25, C26)."""
+import json
 import os
+import re
+import shutil
 import warnings
 import numpy as np
 
 from .. import tlc, ftable
-from ..common import MachineryError, quiet, workdir
+from ..common import MachineryError, quiet, WORK
 from . import _sysalg_world as W
 
 INVARIANTS = ["LawReorder", "LawRotate", "LawDoubleSpin", "LawMakeSOC", "LawToPlainR", "LawInterpolate", "AlwaysHermitian"]
 DEFAULTS = dict(NWS="{1, 2}", KDIRS=2, MAXHOPS=1, MAXHOPS2=1, NEPS=2, NCEN=2, WITHX="{FALSE}", OPS='{"Reorder"}', MAXLEN=1,
-                PHS="{0, 1}", ANGM="{0, 1}", ANGN="{0, 1}", ALS="{1}", MAXSOC=1, DEN=2, SC=1, Variant='"ok"')
+                PHS="{0, 1}", ANGM="{0, 1}", ANGN="{0, 1}", ALS="{1}", MAXSOC=1, DEN=2, SC=1, AEXT=0, NSPINS="{2}", Variant='"ok"')
 OP_SITE = {"Reorder": "System_R.reorder", "Rotate": "rotate_all_R_matrices", "DoubleSpin": "System_R.double_spin",
            "MakeSOC": "SystemSOC", "SetSOC": "SystemSOC.set_soc_axis", "ToPlainR": "SystemSOC.get_system_R",
            "Interpolate": "SystemInterpolator.interpolate", "base": "System_R.from_sparse"}
+TLC_WORKERS = 4
+
+
+# ------------------------------------------------------------------ scratch: unique per property id and process
+_SCRATCH = {}
+
+
+def scratch(pid=None):
+    if pid is not None:
+        _SCRATCH["root"] = os.path.join(WORK, f"sysalg_{pid}_{os.getpid()}")
+        os.makedirs(_SCRATCH["root"], exist_ok=True)
+    if "root" not in _SCRATCH:
+        _SCRATCH["root"] = os.path.join(WORK, f"sysalg_x_{os.getpid()}")
+        os.makedirs(_SCRATCH["root"], exist_ok=True)
+    return _SCRATCH["root"]
+
+
+def scratch_cleanup():
+    r = _SCRATCH.pop("root", None)
+    if r:
+        shutil.rmtree(r, ignore_errors=True)
 
 
 def ops_cfg(invariants=INVARIANTS, **kw):
@@ -22,15 +46,47 @@ def ops_cfg(invariants=INVARIANTS, **kw):
             "".join(f"INVARIANT {i}\n" for i in invariants) + "CHECK_DEADLOCK FALSE\n"), d
 
 
-def enumerate_states(module, cfg, name, workers=16, timeout=1700):
+def run_tlc(module, cfg, name, **kw):
+    kw.setdefault("workers", TLC_WORKERS)
+    kw.setdefault("coverage", False)
+    return tlc.run_tlc(module, cfg, name, workroot=scratch(), **kw)
+
+
+def enumerate_states(module, cfg, name, workers=None, timeout=1700):
     """like ftable.enumerate_states, without -coverage (the cost model disables TLC's caching of lazily evaluated operator
     arguments, which makes the matrix arithmetic of SysNum many times slower); non-vacuity is decided from the dump instead"""
-    st = tlc.run_tlc(module, cfg, name, workers=workers, dump=True, coverage=False, timeout=timeout)
+    st = run_tlc(module, cfg, name, workers=workers or TLC_WORKERS, dump=True, timeout=timeout)
     if st.get("timeout"):
         raise MachineryError(f"TLC timed out on {name}")
     if st.get("error") and not st.get("violation"):
         raise MachineryError(f"TLC error on {name}: {st['error'][:600]}")
     return st
+
+
+def sorted_states(st, keyf):
+    """the states of a dump in an order that does not depend on TLC's scheduling"""
+    states = list(ftable.dump_states(st))
+    states.sort(key=keyf)
+    return states
+
+
+def validate_records(module, cfg, records, name, timeout=1500):
+    """ftable.validate_records with a scratch directory that is unique per property id and process"""
+    wd = os.path.join(scratch(), "records", name)
+    os.makedirs(wd, exist_ok=True)
+    tf = os.path.join(wd, "recs.json")
+    with open(tf, "w") as f:
+        json.dump({"recs": records}, f)
+    st = run_tlc(module, cfg, f"rec_{name}", workers=1, env={"TRACE_FILE": tf}, timeout=timeout)
+    if st.get("error") or st.get("timeout") or st["distinct"] == 0:
+        raise MachineryError(f"record validation TLC run failed ({name}): {st.get('error') or st.get('output', '')[-800:]}")
+    if st["distinct"] != len(records):
+        raise MachineryError(f"record validation ({name}): {st['distinct']} states for {len(records)} records")
+    bad = {}
+    for i, cl in re.findall(r'^<<"BAD", (\d+), "([\w.:-]+)">>', st["output"], re.M):
+        bad.setdefault(int(i) - 1, []).append(cl)
+    tot = dict(distinct=st["distinct"], generated=st["generated"], wall_s=st["wall_s"], mode="record-validation")
+    return tot, bad
 
 
 def run_ops(rep, name, workers, **kw):
@@ -45,7 +101,7 @@ def run_ops(rep, name, workers, **kw):
 
 def sensitivity(rep, name, expect, workers, **kw):
     cfg, _ = ops_cfg(**kw)
-    st = tlc.run_tlc("MC_SysAlgOps.tla", cfg, name, workers=workers, coverage=False, timeout=1200)
+    st = run_tlc("MC_SysAlgOps.tla", cfg, name, workers=workers, timeout=1200)
     if not st.get("violation") or st["violation"][1] != expect:
         raise MachineryError(f"sensitivity self-test {name}: expected TLC to violate {expect}, got {st.get('violation')} {str(st.get('error'))[:300]}")
     rep.part(name, sensitivity_violation=st["violation"][1], variant=kw.get("Variant"))
@@ -55,28 +111,197 @@ def ks_of(state):
     return sorted(state["obs"].keys())
 
 
+def state_key(state):
+    return W.stable_key((state["base"], state["hist"]))
+
+
+PAULI_XYZ = np.array([[[0, 1], [1, 0]], [[0, -1j], [1j, 0]], [[1, 0], [0, -1]]], dtype=complex)
+
+
+def interlaced_ss(nw2):
+    exp = np.zeros((nw2, nw2, 3), dtype=complex)
+    for m in range(nw2 // 2):
+        exp[2 * m:2 * m + 2, 2 * m:2 * m + 2, :] = np.transpose(PAULI_XYZ, (1, 2, 0))
+    return exp
+
+
+def axis_of(m, n):
+    th, ph = m * np.pi / 2, n * np.pi / 2
+    return np.array([np.sin(th) * np.cos(ph), np.sin(th) * np.sin(ph), np.cos(th)])
+
+
+def ss_at_R0(real):
+    """SS(R = 0) of a real system, or None when it is not reachable"""
+    return W.private("SS(R=0)", lambda: np.array(real.get_R_mat("SS"))[[tuple(int(x) for x in R) for R in real.rvec.iRvec].index((0, 0, 0))])
+
+
+def normalise_double_spin(real, info=None):
+    """after double_spin: the pairing (up, down) is read from the code's SS; any order of the doubled functions that keeps
+    the order of the orbitals is accepted and brought to the interlaced order of the specification with the public reorder"""
+    ss0 = ss_at_R0(real)
+    if ss0 is None:
+        return None
+    pairs = W.spin_pairs_of(ss0)
+    if pairs is None:
+        return False
+    q = [i for p in pairs for i in p]
+    if q != list(range(len(q))):
+        if info is not None:
+            info["double_spin_order"] = q
+        W.under_test(real.reorder, q)
+    return True
+
+
+def _mutate(system):
+    """spoil a result of interpolate in place (the next call of the same interpolator must not see it)"""
+    for key in ("Ham", "AA"):
+        if system.has_R_mat(key):
+            system.get_R_mat(key)[...] += 7.0
+    system.wannier_centers_cart += 0.37
+
+
+def apply_hist(state, var, hist=None):
+    """base + operation history on real objects. Only the public call of each operation runs through `under_test`.
+    Returns (kind, real object, info). Raises W.UnderTestError (with .op set) / W.HarnessMisuse"""
+    from wannierberri.system.interpolate import SystemInterpolator
+    hist = state["hist"] if hist is None else hist
+    ks = ks_of(state)
+    bkw = dict(periodic=var["periodic"], lattice=var["lattice"])
+    real = W.setup(W.build, W.sys_from_tla(state["base"]), **bkw)
+    kind, nspin, hassoc = "R", 2, False
+    info = dict(ss_exp=None)
+    for idx, op in enumerate(hist):
+        name = op["op"]
+        last = idx == len(hist) - 1
+        try:
+            with quiet(), warnings.catch_warnings():
+                warnings.simplefilter("ignore")
+                if last and kind == "R":
+                    info["dh_prev"] = W.under_test(W.real_dhk, real, ks)
+                if name == "Reorder":
+                    p0 = [x - 1 for x in op["p"]]
+                    names = None
+                    if var["names"]:
+                        names = np.array([f"w{i}" for i in range(real.num_wann)])
+                        real.wannier_names = names.copy()
+                    W.under_test(real.reorder, p0)
+                    if names is not None and last:
+                        got = W.private("wannier_names", lambda: list(real.wannier_names))
+                        if got is not None and got != list(names[p0]):
+                            info["names_diff"] = dict(expected=list(names[p0]), got=got)
+                    if info["ss_exp"] is not None:
+                        info["ss_exp"] = info["ss_exp"][p0][:, p0]
+                    info["p0"] = p0
+                elif name == "Rotate":
+                    U = W.tla_mat(op["U"])
+                    W.setup(W.op_rotate, real, U)
+                    if info["ss_exp"] is not None:
+                        info["ss_exp"] = np.einsum("ab,bcx,cd->adx", U.conj().T, info["ss_exp"], U)
+                    info["U"] = U
+                elif name == "DoubleSpin":
+                    W.under_test(real.double_spin)
+                    info["pairing_ok"] = normalise_double_spin(real, info)
+                    info["ss_exp"] = interlaced_ss(real.num_wann)
+                elif name == "MakeSOC":
+                    nspin = int(op.get("nspin", 2))
+                    upnw = real.num_wann
+                    dn = None if nspin == 1 else W.setup(W.build, W.sys_from_tla(op["dn"]), **bkw)
+                    real = W.make_soc(real, dn)
+                    kind, info["ss_exp"] = "SOC", None
+                elif name == "SetSOC":
+                    nw = upnw
+                    rsS = sorted(tuple(R) for R in op["rsS"])
+                    D = {st: {R: np.array([[[complex(g[0], g[1]) for g in op["D"][st][R][m][n]] for n in range(nw)] for m in range(nw)], dtype=complex)
+                              for R in rsS} for st in ("00", "11", "01")}
+                    info["soc_ret"] = W.set_soc(real, dict(up=dict(nw=nw), rsS=rsS, D=D, al=op["al"]), op["m"], op["n"], nspin=nspin,
+                                                degrees=bool(var["h"] & 1))
+                    info["mn"] = (op["m"], op["n"])
+                    hassoc = True
+                elif name == "ToPlainR":
+                    info["no_soc_terms"] = not hassoc
+                    if last:
+                        info["hk_prev"] = W.under_test(W.real_hk, real, ks)
+                    real = W.under_test(real.get_system_R)
+                    kind = "R"
+                elif name == "Interpolate":
+                    s1 = W.setup(W.build, W.sys_from_tla(op["s1"]), **bkw)
+                    upg = (1, 1, 0, -1)[(var["h"] >> 2) & 3]
+                    before0, before1 = W.project(real)[0], W.project(s1)[0]
+                    itp = W.under_test(SystemInterpolator, real, s1, use_pointgroup=upg) if upg != 1 else W.under_test(SystemInterpolator, real, s1)
+                    if (var["h"] >> 1) & 1:                        # re-use: an earlier result, spoiled, must not influence the next one
+                        first = W.under_test(itp.interpolate, 0.5)
+                        W.setup(_mutate, first)
+                        info["reused"] = True
+                    res = W.under_test(itp.interpolate, op["a"] / op["den"])
+                    ch = W.diff_sys(before0, W.project(real)[0]) + W.diff_sys(before1, W.project(s1)[0])
+                    if ch:
+                        info["inputs_changed"] = ch[:4]
+                    real = res
+                    info["use_pointgroup"] = upg
+                    info["ss_exp"] = None
+                else:
+                    raise MachineryError(f"unknown op {name}")
+        except (W.UnderTestError, W.HarnessMisuse) as e:
+            e.op = name
+            e.no_soc_terms = bool(info.get("no_soc_terms")) and name == "ToPlainR"
+            raise
+        except (TypeError, AttributeError) as ex:                 # outside the public calls: the harness's own use of the API
+            e = W.HarnessMisuse(f"{type(ex).__name__}: {ex}"[:300]) if W._site_of(ex) is None else W.UnderTestError(ex, W._site_of(ex))
+            e.op, e.no_soc_terms = name, False
+            raise e from ex
+    info["nspin"] = nspin
+    return kind, real, info
+
+
+def _key_raises(e):
+    site = OP_SITE.get(getattr(e, "op", None), "sysalg")
+    return f"{site}:no_soc_terms:raises" if getattr(e, "no_soc_terms", False) else f"{site}:raises"
+
+
 def replay_state(rep, state, pid, tag=""):
     """one TLC state on the real code, exact comparison with cur / obs / aux. Returns the real object (for numeric follow-ups)"""
     hist = state["hist"]
     last = hist[-1]["op"] if hist else "base"
     site = OP_SITE[last]
     ks = ks_of(state)
-    key = (tag, repr(state["base"]), repr(hist))
-    rep.case(key, nontrivial=bool(hist))
-    # SetSOC needs the abstract SOC data of the state it leads to: replay it with the data of `cur` / `prev`
+    var = W.variant_of((state["base"], hist))
+    rep.case((tag, state_key(state)), nontrivial=bool(hist))
+    detail = dict(base=_js(state["base"]), hist=_js(hist), lattice=var["lattice"].tolist(), periodic=list(var["periodic"]))
     try:
-        kind, real = _apply(state)
+        kind, real, info = apply_hist(state, var)
     except W.NonIntegral as ex:
-        rep.violation(f"{site}:non-integral", dict(base=_js(state["base"]), hist=_js(hist), error=str(ex)))
+        rep.violation(f"{site}:non-integral", dict(detail, error=str(ex)))
         return None
-    except MachineryError:
-        raise
-    except Exception as ex:                                    # the real code raised where the specification defines a result
-        rep.violation(f"{site}:raises", dict(base=_js(state["base"]), hist=_js(hist), error=repr(ex)[:400]))
+    except W.UnderTestError as e:                              # the real code raised where the specification defines a result
+        rep.violation(_key_raises(e), dict(detail, error=str(e)[:400], raised_in=e.site, during=getattr(e, "op", None)))
+        return None
+    except W.HarnessMisuse as e:
+        W.note_skip(f"replay:{getattr(e, 'op', 'base')}", e)
         return None
     if kind != state["kind"]:
         raise MachineryError("replay lost track of the system kind")
-    detail = dict(base=_js(state["base"]), hist=_js(hist))
+    if info.get("names_diff"):
+        rep.violation("System_R.reorder:wannier_names", dict(detail, **info["names_diff"]))
+    if info.get("inputs_changed"):
+        rep.violation("SystemInterpolator.interpolate:inputs_modified", dict(detail, differences=info["inputs_changed"]))
+    if info.get("pairing_ok") is False:
+        rep.violation("System_R.double_spin:SS", dict(detail, note="SS(R=0) after double_spin is not a pairing of every function with one partner"))
+    if info.get("double_spin_order"):
+        rep.part("double_spin_order_not_interlaced", cases=rep.parts.get("double_spin_order_not_interlaced", {}).get("cases", 0) + 1)
+    # the code's rotated Pauli matrices may be any valid choice (Pauli algebra, spin along the axis diagonal)
+    exp_hk, pauli_alt = None, None
+    if "mn" in info:
+        m, n = info["mn"]
+        socspec = W.soc_from_tla(state["cur"] if kind == "SOC" else state["prev"])
+        ok, pcode = W.guarded(rep, "SOC.get_pauli_rotated", detail, W.code_pauli, m, n)
+        if ok and np.max(np.abs(pcode - socspec["P"])) > 1e-12:
+            defect = W.pauli_defect(pcode, axis_of(m, n))
+            if defect > 1e-12:
+                rep.violation("SOC.get_pauli_rotated:algebra", dict(detail, m=m, n=n, defect=defect, got=_c(pcode)))
+                return real
+            pauli_alt = dict(socspec, P=pcode)
+            rep.part("pauli_choice_differs_from_spec", cases=rep.parts.get("pauli_choice_differs_from_spec", {}).get("cases", 0) + 1)
+            exp_hk = lambda k: W.abs_hk_soc(pauli_alt, k)
     if kind == "R":
         cur = W.sys_from_tla(state["cur"])
         try:
@@ -84,97 +309,109 @@ def replay_state(rep, state, pid, tag=""):
         except W.NonIntegral as ex:
             rep.violation(f"{site}:non-integral", dict(detail, error=str(ex)))
             return real
-        d = W.diff_sys(cur, got, centres=True)
-        if d:
-            rep.violation(f"{site}:projection", dict(detail, differences=d[:6]))
-        dv = W.diff_views(cur["cen"], views)
-        if dv:
-            ksite = f"{site}:centres_not_propagated" if last == "Interpolate" else f"{site}:shifts"
-            rep.violation(ksite, dict(detail, expected_centres_twelfths=cur["cen"].tolist(), differences=dv,
-                                      note="wannier_centers_cart, the cached wannier_centers_red and rvec.shifts_*_red must all be the centres of the result"))
-        # derivative in the Wannier gauge uses the shifts: exact comparison with the specification's DHk
-        if not dv:
-            dh = W.real_dhk(real, ks)
-            for i, k in enumerate(ks):
-                if np.max(np.abs(dh[i] - W.abs_dhk(cur, k))) > 1e-8:
-                    rep.violation(f"{site}:dHk", dict(detail, k_quarters=k, expected=_c(W.abs_dhk(cur, k)), got=_c(dh[i])))
-                    break
-    _compare_obs(rep, state, real, ks, site, detail)
+        if pauli_alt is None:
+            d = W.diff_sys(cur, got, centres=True)
+            if d:
+                rep.violation(f"{site}:projection", dict(detail, differences=d[:6]))
+        else:
+            cur = got                                            # the absolute prediction used the specification's Pauli choice
+        if bool(got["spinor"]) != bool(cur["spinor"]):
+            c = rep.parts.get("spinor_flag_differs", {})
+            rep.part("spinor_flag_differs", **{site: c.get(site, 0) + 1}, example=repr(got.get("spinor_raw")))
+        _check_centres(rep, real, got, cur, views, ks, site, last, detail, var, info)
+        if info.get("ss_exp") is not None:
+            ss = ss_at_R0(real)
+            if ss is not None and (ss.shape != info["ss_exp"].shape or np.max(np.abs(ss - info["ss_exp"])) > 1e-12):
+                rep.violation(f"{site}:SS", dict(detail, expected=_c(info["ss_exp"]), got=_c(ss)))
+        if last == "ToPlainR" and info.get("hk_prev") is not None:
+            ok, hk = W.guarded(rep, f"{site}:HH_K", detail, W.real_hk, real, ks)
+            if ok and (hk.shape != info["hk_prev"].shape or np.max(np.abs(hk - info["hk_prev"])) > 1e-9):
+                rep.violation(f"{site}:same_hamiltonian", dict(detail, k_quarters=ks, soc=_c(info["hk_prev"]), plain=_c(hk)))
+    _compare_obs(rep, state, real, ks, site, detail, exp_hk=exp_hk)
     if kind == "SOC" and state["cur"]["hassoc"]:
-        socabs = W.soc_from_tla(state["cur"])
-        hs = np.array(real.get_R_mat("Ham_SOC"))
+        socabs = pauli_alt or W.soc_from_tla(state["cur"])
+        hs, ss_all = info.get("soc_ret", (None, None))
         rs = [tuple(int(x) for x in R) for R in real.rvec.iRvec]
-        for R in rs:
-            exp = W.tla_mat(state["aux"][R])
-            g = hs[rs.index(R)]
-            if np.max(np.abs(g - exp)) > 1e-9:
-                rep.violation("SystemSOC.set_soc_axis:Ham_SOC", dict(detail, R=R, expected=_c(exp), got=_c(g)))
-                break
-        iR0 = rs.index((0, 0, 0))
-        ss = np.array(real.get_R_mat("SS"))[iR0]
-        nw = socabs["up"]["nw"]
-        exp = np.zeros((2 * nw, 2 * nw, 3), dtype=complex)
-        for m in range(nw):
-            exp[2 * m:2 * m + 2, 2 * m:2 * m + 2, :] = np.transpose(socabs["P"], (1, 2, 0))
-        if np.max(np.abs(ss - exp)) > 1e-9:
-            rep.violation("SystemSOC.set_soc_axis:SS", dict(detail, expected=_c(exp), got=_c(ss)))
-    if hist and last == "DoubleSpin":
-        ss = np.array(real.get_R_mat("SS"))[real.rvec.iR0]
-        nw = real.num_wann // 2
-        pa = np.array([[[0, 1], [1, 0]], [[0, -1j], [1j, 0]], [[1, 0], [0, -1]]])
-        exp = np.zeros((2 * nw, 2 * nw, 3), dtype=complex)
-        for m in range(nw):
-            exp[2 * m:2 * m + 2, 2 * m:2 * m + 2, :] = np.transpose(pa, (1, 2, 0))
-        if np.max(np.abs(ss - exp)) > 1e-12:
-            rep.violation("System_R.double_spin:SS", dict(detail, expected=_c(exp), got=_c(ss)))
+        if hs is not None:
+            expd = W.abs_ham_soc(socabs) if pauli_alt else {R: W.tla_mat(state["aux"][R]) for R in rs}
+            for R in rs:
+                g = hs[rs.index(R)]
+                if np.max(np.abs(g - expd[R])) > 1e-9:
+                    rep.violation("SystemSOC.set_soc_axis:Ham_SOC", dict(detail, R=R, expected=_c(expd[R]), got=_c(g)))
+                    break
+        if ss_all is not None:
+            ss = ss_all[rs.index((0, 0, 0))]
+            nw = socabs["up"]["nw"]
+            exp = np.zeros((2 * nw, 2 * nw, 3), dtype=complex)
+            for m in range(nw):
+                exp[2 * m:2 * m + 2, 2 * m:2 * m + 2, :] = np.transpose(socabs["P"], (1, 2, 0))
+            if np.max(np.abs(ss - exp)) > 1e-9:
+                rep.violation("SystemSOC.set_soc_axis:SS", dict(detail, expected=_c(exp), got=_c(ss)))
     return real
 
 
-def _apply(state):
-    """like apply_hist, but SetSOC is executed with the abstract SOC data (D, angles, alpha) of the operation"""
-    real = W.build(W.sys_from_tla(state["base"]))
-    kind = "R"
-    upabs = None
-    for op in state["hist"]:
-        name = op["op"]
-        with quiet(), warnings.catch_warnings():
-            warnings.simplefilter("ignore")
-            if name == "Reorder":
-                real.reorder([x - 1 for x in op["p"]])
-            elif name == "Rotate":
-                W.op_rotate(real, W.tla_mat(op["U"]))
-            elif name == "DoubleSpin":
-                real.double_spin()
-            elif name == "MakeSOC":
-                upnw = real.num_wann
-                real = W.make_soc(real, W.build(W.sys_from_tla(op["dn"])))
-                kind = "SOC"
-                upabs = dict(nw=upnw)
-            elif name == "SetSOC":
-                nw = upabs["nw"]
-                rsS = sorted(tuple(R) for R in op["rsS"])
-                D = {st: {R: np.array([[[complex(g[0], g[1]) for g in op["D"][st][R][m][n]] for n in range(nw)] for m in range(nw)], dtype=complex)
-                          for R in rsS} for st in ("00", "11", "01")}
-                W.set_soc(real, dict(up=dict(nw=nw), rsS=rsS, D=D, al=op["al"]), op["m"], op["n"])
-            elif name == "ToPlainR":
-                real = real.get_system_R()
-                kind = "R"
-            elif name == "Interpolate":
-                from wannierberri.system.interpolate import SystemInterpolator
-                s1 = W.build(W.sys_from_tla(op["s1"]))
-                real = SystemInterpolator(real, s1).interpolate(op["a"] / op["den"])
-            else:
-                raise MachineryError(f"unknown op {name}")
-    return kind, real
+def _bump(rep, part, key):
+    c = rep.parts.get(part, {})
+    rep.part(part, **{key: c.get(key, 0) + 1})
 
 
-def _compare_obs(rep, state, real, ks, site, detail):
-    """HH_K of the real data_K class at the quarter k-points vs the specification's H(k) (exact) and spectrum"""
-    d = W.data_k_list(real, ks)
-    hk = np.array(d.HH_K)
-    ek = np.array(d.E_K)
+def _check_centres(rep, real, got, cur, views, ks, site, last, detail, var, info):
+    """the centres of the result are in force everywhere: the public wannier_centers_red, and (observably) the Wannier-gauge
+    derivative of H(k), which uses the shifts of the R-vectors, equals that of a system freshly built from the result"""
+    ksite = f"{site}:centres_not_propagated" if last == "Interpolate" else f"{site}:shifts"
+    dv = W.diff_views(got["cen"], views, only=("cen_red",))
+    if dv:
+        rep.violation(ksite, dict(detail, centres_twelfths=got["cen"].tolist(), differences=dv,
+                                  note="the public wannier_centers_red must be wannier_centers_cart in reduced coordinates"))
+    dsh = W.diff_views(got["cen"], views, only=("shifts_left", "shifts_right"))
+    ok, dh = W.guarded(rep, f"{site}:dHk", detail, W.real_dhk, real, ks)
+    if not ok:
+        return
+    if dh is None:
+        if dsh:                                                   # fall-back on the private view when the derivative is not reachable
+            rep.violation(ksite, dict(detail, centres_twelfths=got["cen"].tolist(), differences=dsh))
+        return
+    try:
+        fresh = W.setup(W.build, got, periodic=var["periodic"], lattice=var["lattice"])
+        dh2 = W.real_dhk(fresh, ks)
+    except W.HarnessMisuse as e:
+        W.note_skip("rebuild", e)
+        dh2 = None
+    if dh2 is not None and (dh.shape != dh2.shape or np.max(np.abs(dh - dh2)) > 1e-8):
+        rep.violation(ksite, dict(detail, centres_twelfths=got["cen"].tolist(), private_views=dsh,
+                                  note="the Wannier-gauge derivative of H(k) of the result differs from that of a system built from "
+                                       "the result's own matrices and centres: the shifts of its R-vectors are not its centres",
+                                  k_quarters=ks[0], got=_c(dh[0]), rebuilt=_c(dh2[0])))
+        return
+    if dsh:
+        _bump(rep, "private_shift_views_differ_but_derivative_consistent", site)
+    # C05: relational form, independent of the convention of the Wannier gauge
+    prev = info.get("dh_prev")
+    if prev is not None and last in ("Reorder", "Rotate"):
+        if last == "Reorder":
+            p0 = info["p0"]
+            exp = prev[:, p0][:, :, p0]
+        else:
+            U = info["U"]
+            exp = np.einsum("ab,kbcx,cd->kadx", U.conj().T, prev, U)
+        if exp.shape != dh.shape or np.max(np.abs(dh - exp)) > 1e-8:
+            rep.violation(f"{site}:dHk", dict(detail, k_quarters=ks, expected=_c(exp), got=_c(dh),
+                                              note="derivative after the operation vs the permuted / rotated derivative before it"))
+    # information only: the absolute convention i (R + tau_b - tau_a) H of the specification
     for i, k in enumerate(ks):
-        exp = W.tla_mat(state["obs"][k][0])
+        if np.max(np.abs(dh[i] - W.abs_dhk(cur, k))) > 1e-8:
+            _bump(rep, "dHk_absolute_convention_differs", site)
+            break
+
+
+def _compare_obs(rep, state, real, ks, site, detail, exp_hk=None):
+    """HH_K of the real data_K class at the quarter k-points vs the specification's H(k) (exact) and spectrum"""
+    ok, val = W.guarded(rep, f"{site}:HH_K", detail, W.real_hk_ek, real, ks)
+    if not ok:
+        return
+    hk, ek = val
+    for i, k in enumerate(ks):
+        exp = W.tla_mat(state["obs"][k][0]) if exp_hk is None else exp_hk(k)
         if hk[i].shape != exp.shape or np.max(np.abs(hk[i] - exp)) > 1e-9:
             rep.violation(f"{site}:HH_K", dict(detail, k_quarters=k, expected=_c(exp), got=_c(hk[i])))
             return
@@ -182,7 +419,7 @@ def _compare_obs(rep, state, real, ks, site, detail):
         if np.max(np.abs(np.sort(ek[i]) - ev)) > 1e-8:
             rep.violation(f"{site}:E_K", dict(detail, k_quarters=k, expected=ev.tolist(), got=ek[i].tolist()))
             return
-        cp = np.array([g[0] for g in state["obs"][k][1]], dtype=float)
+        cp = np.array([g[0] for g in state["obs"][k][1]], dtype=float)      # the spectrum does not depend on the Pauli choice
         got = W.esym(ek[i])
         if np.max(np.abs(got - cp)) > 1e-7 * max(1.0, np.max(np.abs(cp))):
             rep.violation(f"{site}:charpoly", dict(detail, k_quarters=k, expected=cp.tolist(), got=got.tolist()))
@@ -196,11 +433,7 @@ def _c(a):
 
 def _js(v):
     """TLA value (parsed) -> JSON-able"""
-    if isinstance(v, dict):
-        return {str(k): _js(x) for k, x in v.items()}
-    if isinstance(v, (tuple, list, frozenset, set)):
-        return [_js(x) for x in (sorted(v, key=repr) if isinstance(v, (set, frozenset)) else v)]
-    return v
+    return W.jsable(v)
 
 
 def count_ops(states):
@@ -223,8 +456,8 @@ def observe(system, k=GENERIC_K, quantities=("energy", "berry_curvature_internal
 
 
 def compare_observations(a, b, tol, band_resolved=True, mult=1):
-    """a, b: dicts of evaluate_k; energies (b may have every band `mult` times), curvature per band where the spectrum is
-    non-degenerate, else summed over all bands. Returns max deviation and what was compared."""
+    """a, b: dicts of evaluate_k; energies (b may have every band `mult` times), other quantities per band where the spectrum is
+    non-degenerate, else summed over all bands. Deviations are relative to max(1, |value|). Returns max deviation and what was compared."""
     ea, eb = np.sort(a["energy"]), np.sort(b["energy"])
     dev = float(np.max(np.abs(np.repeat(ea, mult) - eb)))
     what = ["energy"]
@@ -232,23 +465,35 @@ def compare_observations(a, b, tol, band_resolved=True, mult=1):
         if q == "energy":
             continue
         gap = np.min(np.diff(ea)) if len(ea) > 1 else 1.0
+        scale = max(1.0, float(np.max(np.abs(a[q]))))
         if band_resolved and mult == 1 and gap > 1e-3:
-            dev = max(dev, float(np.max(np.abs(a[q] - b[q]))))
+            dev = max(dev, float(np.max(np.abs(a[q] - b[q]))) / scale)
             what.append(q + ":band_resolved")
         else:
-            dev = max(dev, float(np.max(np.abs(a[q].sum(axis=0) * mult - b[q].sum(axis=0)))))
+            dev = max(dev, float(np.max(np.abs(a[q].sum(axis=0) * mult - b[q].sum(axis=0)))) / scale)
             what.append(q + ":trace")
     return dev, what
 
 
-def run_integrated(system, nk=4):
-    """a few integrated outputs of run() on a small grid (exactly representable inputs)"""
+def run_integrated(system, nk=4, external=False, more=False):
+    """a few integrated outputs of run() on a small grid"""
     import wannierberri as wb
     ef = np.array([-1.375, -0.125, 0.625, 1.875])
-    calcs = {"cumdos": wb.calculators.static.CumDOS(Efermi=ef), "ahc": wb.calculators.static.AHC(Efermi=ef, kwargs_formula=dict(external_terms=False))}
+    st = wb.calculators.static
+    calcs = {"cumdos": st.CumDOS(Efermi=ef), "ahc": st.AHC(Efermi=ef, kwargs_formula=dict(external_terms=bool(external)))}
+    if more:
+        calcs["ohmic_sea"] = st.Ohmic_FermiSea(Efermi=ef)
+        calcs["dos"] = st.DOS(Efermi=ef)
+    out = os.path.join(scratch(), "run")
+    os.makedirs(out, exist_ok=True)
     with quiet(), warnings.catch_warnings():
         warnings.simplefilter("ignore")
         grid = wb.Grid(system=system, NKdiv=[nk, nk, 1], NKFFT=[1, 1, 1])
         res = wb.run(system, grid=grid, calculators=calcs, adpt_num_iter=0, parallel=False, restart=False,
-                     use_irred_kpt=False, symmetrize=False, print_Kpoints=False, fout_name=os.path.join(workdir("sysalg_run", clean=False), "res"))
+                     use_irred_kpt=False, symmetrize=False, print_Kpoints=False, fout_name=os.path.join(out, "res"))
     return {k: np.array(res.results[k].data) for k in calcs}
+
+
+def rel_dev(ra, rb):
+    """max over the outputs of |a - b| / max(1, |a|)"""
+    return max(float(np.max(np.abs(ra[k] - rb[k]))) / max(1.0, float(np.max(np.abs(ra[k])))) for k in ra)
